@@ -928,7 +928,22 @@ def c05_compare(project, obs1, obsn):
     if a == b:
         if set(obs1["outcome"]) != set(obsn["outcome"]) or obs1["outcome"].get("returned") != obsn["outcome"].get("returned"):
             return [F("C05/outcome-differs", "1 thread: %r, N threads: %r" % (obs1["outcome"], obsn["outcome"]))]
-        return []
+        # the SAVED report (what the real file backends wrote, read back by the real loader) is the same too
+        out = []
+        for name in sorted(set(obs1.get("saved") or {}) & set(obsn.get("saved") or {})):
+            s1, sn = obs1["saved"][name], obsn["saved"][name]
+            if s1["exists"] != sn["exists"] or (s1["error"] is None) != (sn["error"] is None):
+                out.append(F("C05/saved-report-differs/" + name, "1 thread: exists=%s error=%s; N threads: exists=%s error=%s"
+                             % (s1["exists"], s1["error"], sn["exists"], sn["error"])))
+            elif s1["view"] is not None and sn["view"] is not None:
+                if name == "junit":
+                    fa, fb = s1["view"], sn["view"]
+                else:
+                    fa, fb = normal_form(s1["view"], obs1.get("attachments")), normal_form(sn["view"], obsn.get("attachments"))
+                if fa != fb:
+                    out.append(F("C05/saved-report-differs/" + name, "the file saved by the N-thread run differs from the one saved by the "
+                                 "1-thread run although the in-memory reports are equal: %s" % _first_diff(fa, fb), _first_diff(fa, fb)))
+        return out
     where = _first_diff(a, b)
     if "raised" in obsn["outcome"] and "raised" not in obs1["outcome"]:
         return [F("C05/run-raised-with-threads/" + obsn["outcome"]["raised"], "N-thread run raised: %s" % obsn["outcome"]["text"][:200], where)]
